@@ -86,6 +86,18 @@ def run_scenario(sc: dict[str, Any]) -> dict[str, Any]:
                             await stopped.wait()
                     finally:
                         sim.rec('d.exit', loop=o, name=name)
+                if sc.get('dmode') == 'syncbusy':
+                    # a synchronous (threaded) daemon that sits in a blocking call for `dbusy` seconds after it was told to stop:
+                    # a thread cannot be cancelled, the framework must wait for it (and must not start a second one meanwhile)
+                    from sim import vthreads
+
+                    def d(stopped, name, **_):             # noqa: F811
+                        sim.rec('d.start', loop=o, name=name)
+                        try:
+                            stopped.wait()
+                            vthreads.sleep(sc.get('dbusy', 10))
+                        finally:
+                            sim.rec('d.exit', loop=o, name=name)
                 kopf.daemon(GROUP, VERSION, PLURAL, registry=reg, id='d', cancellation_backoff=1, cancellation_timeout=1)(d)
             st = sim.settings(peering__lifetime=sc['life'][o], watching__reconnect_backoff=1)
             ops[o] = sim.operator(o, reg, st, peering_name='default', priority=sc['prio'][o], identity=o, clusterwide=True)
@@ -240,8 +252,8 @@ def convert(raw: list[dict[str, Any]], sc: dict[str, Any]) -> list[dict[str, Any
             out.append({'ev': e['kind'], 't': t, 'o': e['loop']})
         elif ev == 'h.enter' and e.get('id') == 'a':
             out.append({'ev': 'inv', 't': t, 'o': e['loop'], 'ct': commit_t.get(e.get('rv') or -1, 0), 'name': e.get('name')})
-        elif ev == 'd.start': out.append({'ev': 'dstart', 't': t, 'o': e['loop']})
-        elif ev == 'd.exit': out.append({'ev': 'dexit', 't': t, 'o': e['loop']})
+        elif ev == 'd.start': out.append({'ev': 'dstart', 't': t, 'o': e['loop'], 'name': e.get('name') or ''})
+        elif ev == 'd.exit': out.append({'ev': 'dexit', 't': t, 'o': e['loop'], 'name': e.get('name') or ''})
         elif ev == 'env.quiet': out.append({'ev': 'quiet', 't': t, 'watching': e['watching']})
     # a null-only PATCH that no evaluation accounts for is shown to the specification as the write it is
     for e in out:
@@ -269,7 +281,8 @@ def judge(traces: list[dict[str, Any]], rep: Any = None, grace: int = 3) -> dict
     try:
         path = os.path.join(scratch, 'traces.json')
         with open(path, 'w') as f:
-            json.dump([{'id': t['id'], 'conf': t['conf'], 'events': t['events']} for t in traces], f)
+            json.dump([{'id': t['id'], 'conf': t['conf'], 'events': t['events'],
+                        'dsync': (t.get('scenario') or {}).get('dmode') == 'syncbusy'} for t in traces], f)
         cfg = ('SPECIFICATION TSpec\nCONSTANTS\n  Ops = {"a", "b", "c"}\n  Ext_ = {"x", "y"}\n  NoConf = NoConf\n  QMax = 100000\n  TrackVer = TRUE\n'
                f'  Grace = {grace}\nCONSTRAINT Book\nPOSTCONDITION Verdicts\nCHECK_DEADLOCK FALSE\n')
         r = tlc.run('Trace_Peering', cfg_text=cfg, workers=1, env={'TRACE_FILE': path}, timeout=3000, deque=True)
@@ -351,6 +364,12 @@ def crafted() -> list[dict[str, Any]]:
         out.append({'id': f'crafted-pause-daemons-{k}', 'ops': ['a', 'b'], 'prio': {'a': 1, 'b': 2}, 'life': {'a': 12, 'b': 12}, 'jit': {'a': 7, 'b': 7},
                     'env': [(0, 'start', 'a'), (10, 'start', 'b')] + [(10, 'edit', n) for n in burst] + [(40, 'stop', 'b')], 'end': 70,
                     'hdur': 0, 'daemon': True, 'dmode': 'cancel', 'nobj': 6})
+    # synchronous daemons in a blocking call while the operator is paused for several passes of the daemon killer and resumes
+    # before the threads have left: the re-listing must not start second instances next to them
+    for k, (busy, pause) in enumerate(((12, 6), (5, 8), (20, 3), (9, 9))):
+        out.append({'id': f'crafted-pause-syncbusy-{k}', 'ops': ['a'], 'prio': {'a': 1}, 'life': {'a': 30}, 'jit': {'a': 7},
+                    'env': [(0, 'start', 'a'), (10, 'ext', 'x', 'live', 5, pause), (10 + pause + 14, 'edit', 'p0')], 'end': 70,
+                    'hdur': 0, 'daemon': True, 'dmode': 'syncbusy', 'dbusy': busy, 'nobj': 3})
     # ... and changes that arrive k loop cycles after the pause was decided (events that sneak into the workers on pausing)
     for k in (0, 1, 2, 3, 4, 6, 8, 12):
         out.append({'id': f'crafted-pause-sneak-{k}', 'ops': ['a', 'b'], 'prio': {'a': 1, 'b': 2}, 'life': {'a': 12, 'b': 12}, 'jit': {'a': 7, 'b': 7},
